@@ -52,6 +52,9 @@ func main() {
 	if *c10Worker != "" {
 		os.Exit(c10WorkerMain(*c10Worker, *tier))
 	}
+	if *c14Hist != "" {
+		os.Exit(c14ChildMain(*c14Hist))
+	}
 	if *c10One != "" {
 		os.Exit(c10CaseMain(*c10One))
 	}
